@@ -212,52 +212,81 @@ func (r *priRun) exec(b pBatch) *pObs {
 					time.Sleep(50 * time.Microsecond)
 				}
 			}
-			mid := len(pq.WaitCh()) == 1
-			// phase 1 of the resolution: nothing of the parked calls has happened
-			midEv := pEvent{isMid: true, mid: mid}
-			var driver []pOp
-			if mid && b.HeldTid >= 0 && !consumers[b.HeldTid].holding && !consumers[b.HeldTid].ret {
-				op := pOp{Op: plTryRecv, T: b.HeldTid}
-				doOp(&op)
-				driver = append(driver, op)
-			}
-			if !res.diverged {
-				var keep []pCand
-				for _, cd := range r.cands {
-					if cd.s.token != mid {
-						continue
-					}
-					st, path := cd.s, &pPath{parent: cd.path, ev: midEv}
-					ok := true
-					for _, op := range driver {
-						l := pLabel{Op: op.Op, T: op.T, W: -1}
-						ns, o, en := pStep(st, l)
-						if !en || !o.eq(op.Out) {
-							ok = false
-							break
-						}
-						st, path = ns, &pPath{parent: path, ev: pEvent{l: l, o: op.Out}}
-					}
-					if ok {
-						keep = append(keep, pCand{s: st, path: path})
-					}
+			// WaitCh is read from a goroutine of its own: an implementation whose WaitCh takes the queue's mutex would
+			// otherwise take the driver with it.  That is no violation (it only waits for the critical section we
+			// pretend to be in): the mutex is released, the read completes, and this batch goes on without the
+			// parked-moment observation
+			released := false
+			releaseOnce := func() {
+				if !released {
+					released = true
+					release()
 				}
-				if len(keep) == 0 {
-					res.diverged = true
-					r.fallback = &pPath{parent: r.cands[0].path, ev: midEv}
+			}
+			mid, midSeen := false, true
+			midDone := make(chan struct{})
+			go func() {
+				defer close(midDone)
+				mid = len(pq.WaitCh()) == 1
+			}()
+			select {
+			case <-midDone:
+			case <-time.After(time.Second):
+				midSeen = false
+				releaseOnce()
+				select {
+				case <-midDone:
+				case <-time.After(stuckBound):
+					heldStuck = true
+				}
+			}
+			if midSeen {
+				// phase 1 of the resolution: nothing of the parked calls has happened
+				midEv := pEvent{isMid: true, mid: mid}
+				var driver []pOp
+				if mid && b.HeldTid >= 0 && !consumers[b.HeldTid].holding && !consumers[b.HeldTid].ret {
+					op := pOp{Op: plTryRecv, T: b.HeldTid}
+					doOp(&op)
+					driver = append(driver, op)
+				}
+				if !res.diverged {
+					var keep []pCand
+					for _, cd := range r.cands {
+						if cd.s.token != mid {
+							continue
+						}
+						st, path := cd.s, &pPath{parent: cd.path, ev: midEv}
+						ok := true
+						for _, op := range driver {
+							l := pLabel{Op: op.Op, T: op.T, W: -1}
+							ns, o, en := pStep(st, l)
+							if !en || !o.eq(op.Out) {
+								ok = false
+								break
+							}
+							st, path = ns, &pPath{parent: path, ev: pEvent{l: l, o: op.Out}}
+						}
+						if ok {
+							keep = append(keep, pCand{s: st, path: path})
+						}
+					}
+					if len(keep) == 0 {
+						res.diverged = true
+						r.fallback = &pPath{parent: r.cands[0].path, ev: midEv}
+						for _, op := range driver {
+							r.fallback = &pPath{parent: r.fallback, ev: pEvent{l: pLabel{Op: op.Op, T: op.T, W: -1}, o: op.Out}}
+						}
+					} else {
+						r.cands = keep
+					}
+				} else {
+					r.fallback = &pPath{parent: r.fallback, ev: midEv}
 					for _, op := range driver {
 						r.fallback = &pPath{parent: r.fallback, ev: pEvent{l: pLabel{Op: op.Op, T: op.T, W: -1}, o: op.Out}}
 					}
-				} else {
-					r.cands = keep
-				}
-			} else {
-				r.fallback = &pPath{parent: r.fallback, ev: midEv}
-				for _, op := range driver {
-					r.fallback = &pPath{parent: r.fallback, ev: pEvent{l: pLabel{Op: op.Op, T: op.T, W: -1}, o: op.Out}}
 				}
 			}
-			release()
+			releaseOnce()
 			// the consumer follows its signal with a Pop, at once and from this goroutine: it usually wins the mutex
 			// against the calls that have just been woken
 			if b.HeldTid >= 0 && consumers[b.HeldTid].holding {
